@@ -20,7 +20,11 @@ def load_ndjson(path):
         e.setdefault("w", [])
         e.setdefault("t", "t0")
         if e.get("k") == "api":
-            for fld, d in (("f", ""), ("ph", ""), ("op", ""), ("o", ""), ("r", 0), ("v", ""), ("n", 0)):
+            for fld, d in (("f", ""), ("ph", ""), ("op", ""), ("o", ""), ("r", 0), ("v", ""), ("n", 0), ("s", 0), ("u", 0)):
+                e.setdefault(fld, d)
+        elif e.get("k") == "env":
+            # environment events as monitor input of the monitor-only validation (op "env:<action>")
+            for fld, d in (("f", ""), ("ph", ""), ("op", "env:" + str(e.get("a", ""))), ("o", ""), ("r", 0), ("v", ""), ("n", 0), ("s", 0), ("u", 0)):
                 e.setdefault(fld, d)
         evs.append(e)
     add_nfn(evs)
@@ -107,13 +111,14 @@ def run_tlc(cfg, module, env=None, workers=4, timeout=600, extra=None, gen=GEN, 
 
 
 def _validate_part(args):
-    scen_name, part, idxs, timeout, cancel = args
+    scen_name, part, idxs, timeout, cancel = args[:5]
+    cfgp = args[5] if len(args) > 5 else "MCT"
     if cancel.is_set():
         return set(), "", {"rc": -10, "generated": 0, "distinct": 0, "violated": [], "cancelled": list(idxs)}
     tmpdir = tempfile.mkdtemp(prefix="vrt_tr_")
     path = os.path.join(tmpdir, f"traces_{scen_name}.json")
     pack(part, path)
-    rc, out = run_tlc(f"MCT_{scen_name}.cfg", f"MCT_{scen_name}.tla", {"VRT_TRACES": path}, 1, timeout, cancel=cancel)
+    rc, out = run_tlc(f"{cfgp}_{scen_name}.cfg", f"MCT_{scen_name}.tla", {"VRT_TRACES": path}, 1, timeout, cancel=cancel)
     shutil.rmtree(tmpdir, ignore_errors=True)
     acc = set(idxs[int(m) - 1] for m in re.findall(r'<<"ACCEPT", (\d+)>>', out))
     st = {"rc": rc, "generated": 0, "distinct": 0}
@@ -135,7 +140,7 @@ def _validate_part(args):
     return acc, out, st
 
 
-def validate(scen_name, traces, workers=16, timeout=900, tmpdir=None):
+def validate(scen_name, traces, workers=16, timeout=900, tmpdir=None, cfg="MCT"):
     """Validate traces with `workers` single-worker depth-first TLC processes.
     returns (accepted_indices (1-based set), tlc_output_of_interest, stats)"""
     import concurrent.futures as cf
@@ -146,7 +151,7 @@ def validate(scen_name, traces, workers=16, timeout=900, tmpdir=None):
         parts[i % nproc].append(i + 1)
     import threading
     cancel = threading.Event()   # one rejected trace decides the run: the other batches are stopped
-    jobs = [(scen_name, [traces[j - 1] for j in idxs], idxs, timeout, cancel) for idxs in parts if idxs]
+    jobs = [(scen_name, [traces[j - 1] for j in idxs], idxs, timeout, cancel, cfg) for idxs in parts if idxs]
     acc, outs = set(), []
     st = {"generated": 0, "distinct": 0, "violated": [], "rc": 0, "cancelled": []}
     with cf.ThreadPoolExecutor(max_workers=nproc) as ex:
